@@ -44,6 +44,16 @@ def block(s, w, rng, comp=True):
 
 
 def cases(rng, tier):
+    # the same query several times in a row on one object
+    for c in gen.repeated_call_cases(rng, 8 if tier == "quick" else 60, ['linNCPR 3', 'linComp 3 -'], gen.CLAMP_BAND[:8] if False else ()):
+        yield c
+    # very long chains
+    for sq in gen.very_long(rng, tier != "quick")[:2 if tier == "quick" else 7]:
+        for w in (5, 1001, len(sq)):
+            yield Case(block(sq, w, rng, comp=False), {"kind": "very-long"})
+    # objects handed back by moves / shuffles, and copy / deepcopy / pickle duplicates of objects with built-up state
+    for l in core.childq_cases(rng, 60 if tier == "quick" else 400, ['linNCPR 3', 'linFCR 2']):
+        yield Case([l], {"kind": "object-from-move-or-copy"})
     # the property's own queries AFTER other public calls on the same object (same answers as on a fresh one)
     for c in gen.after_calls_cases(rng, 16 if tier == "quick" else 120, ['linNCPR 3', 'linFCR 3', 'linSigma 4', 'linHydro 2', 'linComp 3 -']):
         yield c
